@@ -449,9 +449,6 @@ func packageNameOf(ovFiles map[string]string, pkg string) string {
 }
 
 func judgeReplay(out, label, site string) bool {
-	if strings.Contains(out, "REPLAY-DESYNC") {
-		return false
-	}
 	switch {
 	case strings.HasPrefix(label, "panic:"):
 		if !(strings.Contains(out, "REPLAY-PANIC") || strings.Contains(out, "\npanic:")) {
@@ -461,6 +458,9 @@ func judgeReplay(out, label, site string) bool {
 	case strings.HasPrefix(label, "fatal:"):
 		return strings.Contains(out, "fatal error:") || strings.Contains(out, "test timed out") || strings.Contains(out, "all goroutines are asleep")
 	default:
+		if strings.Contains(out, "REPLAY-DESYNC") {
+			return false
+		}
 		for _, l := range strings.Split(out, "\n") {
 			if strings.TrimSpace(l) == "REPLAY-FAIL: "+label {
 				return true
